@@ -21,11 +21,11 @@
 EXTENDS Integers, Sequences, FiniteSets, TLC, Json, SequencesExt
 
 CONSTANTS
-  Shapes,   \* subset of {"fresh", "same", "overlap", "disjoint", "grow", "shrink", "shrink3"}: one is picked initially
+  Shapes,   \* subset of {"fresh", "same", "overlap", "disjoint", "grow", "shrink", "shrink3", "raise5"}: one is picked initially
   N, Ts,    \* fresh: group size and the set of thresholds to explore
   Fasts,    \* subset of BOOLEAN: values of Config.FastSync to explore
   MaxF,     \* at most this many faulty parties (also limited by n-t per group)
-  MenuLvl,  \* "full" | "small"
+  MenuLvl,  \* "full" | "small" | "proto" | "eq" | "fc" (false complaints only: the threshold-boundary menu)
   OrdMode,  \* "all" (every permutation per phase) | "two" (asc/desc per phase) | "glob" (asc/desc chosen once)
   Rec,      \* BOOLEAN: record hist (generator) / keep it empty (model checking)
   LeaveFix  \* BOOLEAN: ProcessResponses accepts a leaving (old-only) dealer (finding #10 repaired)
@@ -46,6 +46,9 @@ ShapeRec(sh, T) ==
      [] sh = "grow"     -> [P |-> 0..3, oi |-> [p \in 0..3 |-> IF p = 3 THEN -1 ELSE p],
                              ni |-> [p \in 0..3 |-> p], ot |-> 2, nt |-> 3, resh |-> TRUE]
      [] sh = "shrink"   -> [P |-> 0..2, oi |-> Id3, ni |-> [p \in 0..2 |-> p - 1], ot |-> 2, nt |-> 2, resh |-> TRUE]
+     \* threshold raised: 2-of-3 -> 3-of-5, two joining members (so OldThreshold <= c < Threshold complaints are possible)
+     [] sh = "raise5"   -> [P |-> 0..4, oi |-> [p \in 0..4 |-> IF p < 3 THEN p ELSE -1],
+                             ni |-> [p \in 0..4 |-> p], ot |-> 2, nt |-> 3, resh |-> TRUE]
      [] sh = "shrink3"  -> [P |-> 0..3, oi |-> [p \in 0..3 |-> p], ni |-> [p \in 0..3 |-> p - 1], ot |-> 3, nt |-> 2, resh |-> TRUE]
 
 \* cf = the configuration of this run (chosen in Init, never changes)
@@ -230,6 +233,7 @@ ShPats ==
 
 DealMenu(f) ==
   IF f \notin Dealers THEN {<<>>}
+  ELSE IF MenuLvl = "fc" THEN {<<>>, <<DB(f, 1, 1, AllG, "ok")>>}
   ELSE IF MenuLvl = "eq" THEN {<<DB(f, 1, 1, AllG, "ok")>>,
                                <<DB(f, 1, 1, AllG, "ok"), DB(f, 2, 1, AllG, "ok")>>,
                                <<DB(f, 1, 1, AllG, "ok"), DB(f, 2, 2, AllG, "ok")>>}
@@ -254,7 +258,9 @@ RespMenu(f) ==
                  ELSE IF MenuLvl = "proto" THEN {{}, d0}
                  ELSE {{}} \cup {{d} : d \in O} \cup {O}
            FL == IF MenuLvl = "proto" THEN {} ELSE {"sid", "unk"} \cup (IF Fast THEN {"partial"} ELSE {"succ"})
-       IN IF MenuLvl = "eq" THEN {<<RespBundle(f, 1, {}, "ok")>>, <<RespBundle(f, 1, d0, "ok")>>,
+       IN IF MenuLvl = "fc" THEN {<<>>} \cup {<<RespBundle(f, 1, cs, "ok")>> : cs \in {{}} \cup {{d} : d \in O} \cup {O}}
+          ELSE
+          IF MenuLvl = "eq" THEN {<<RespBundle(f, 1, {}, "ok")>>, <<RespBundle(f, 1, d0, "ok")>>,
                                    <<RespBundle(f, 1, d0, "ok"), RespBundle(f, 2, {}, "ok")>>}
           ELSE
           {<<>>}
@@ -273,7 +279,9 @@ JustMenu1(f) ==
            g1 == IF C = {} THEN g ELSE [j \in {MinOf(C)} |-> "good"]
            gb == IF C = {} THEN g ELSE [j \in C |-> IF j = MinOf(C) THEN "good" ELSE "bad"]
            ga == [j \in Holders |-> "good"]
-       IN IF MenuLvl = "eq" THEN {<<>>, <<JB(f, 1, TRUE, FALSE, g)>>,
+       IN IF MenuLvl = "fc" THEN {<<>>, <<JB(f, 1, TRUE, FALSE, g)>>}
+          ELSE
+          IF MenuLvl = "eq" THEN {<<>>, <<JB(f, 1, TRUE, FALSE, g)>>,
                                    <<JB(f, 1, TRUE, FALSE, g), JB(f, 2, TRUE, FALSE, b)>>}
           ELSE
           {<<>>}
